@@ -11,7 +11,7 @@ ENGINES = [
 
 ENGINES.append(
     {"name": "E3-enumerate", "path": "vf/props/",
-     "serves_properties": ["C02", "C07", "C08", "C09", "C11", "C14", "C16", "C20"],
+     "serves_properties": ["C02", "C07", "C08", "C09", "C11", "C13", "C14", "C15", "C16", "C20"],
      "kind_free_text": "small-scope exhaustive enumerators (compositions, "
      "all boolean masks / NaN placements, option products) run against the "
      "real code with a reference oracle per case"})
@@ -340,5 +340,51 @@ CHECKS = {
         "note": "two open findings in downsampling.pyx (request > N; "
                 "constant data) that cannot be recompiled here; the "
                 "extension is rebuilt from its .c when that changes",
+    },
+    "C13": {
+        "engine": "E3-enumerate",
+        "level": "exploration",
+        "technique": "exhaustive enumeration of single and paired seeded "
+                     "corruptions and of dclab write paths against the "
+                     "real integrity checker",
+        "text": "Clean files through 10 dclab write paths (writer, export "
+                "from dict/hdf5/filtered/hierarchy child, compress, repack, "
+                "condense, join, split) from complete metadata must get no "
+                "violation; a menu of 45 corruptions (every mandatory key "
+                "incl. fluorescence keys, feature lengths +/-1 per feature "
+                "kind, event count, ROI x/y, unknown feature, index, "
+                "channel/laser/sample counts, resolvable and dangling "
+                "external links, non-positive set-up values) applied with "
+                "raw h5py: all singles (each also compressed and repacked: "
+                "same violations) and all 974 compatible pairs: every "
+                "applied corruption is named by a violation and the "
+                "checker does not crash.",
+        "note": "a corruption counts as reported on a substring match of "
+                "the violation message; violations that the writer "
+                "rectifies (event count, samples per event, roi size) or "
+                "that disappear because links are resolved may vanish in "
+                "copies; two open findings",
+    },
+    "C15": {
+        "engine": "E3-enumerate",
+        "level": "exploration",
+        "technique": "exhaustive enumeration of all vertex sequences on "
+                     "small integer grids against an exact integer "
+                     "even-odd oracle",
+        "text": "Every vertex sequence of length 3, 4 and 5 on the 4x4 "
+                "integer grid (1.1 million polygons, degenerate and "
+                "self-intersecting ones included; thorough adds 5x5 up to "
+                "4 vertices and 3x3 up to 6) against all 81 half-step "
+                "lattice points that are not on the boundary (exact "
+                "integer arithmetic); every k-th polygon additionally "
+                "under all cyclic shifts, reversal, repeated closing "
+                "vertex, inversion (complement) and point_in_poly; 6 "
+                "polygons with up to 12 vertices x scales 2^k and 10^k "
+                "(k=-20..20) x offset with a rational oracle on the actual "
+                "doubles; all 15 subsets of a 4-filter pool saved to one "
+                ".poly file and re-imported into a cleared registry.",
+        "note": "points on (or within rounding distance of) the boundary "
+                "are excluded; the compiled point-in-polygon code is "
+                "rebuilt from its .c when that changes",
     },
 }
